@@ -684,10 +684,11 @@ func FloatModeReduceSlice(a []FloatPoint) []FloatPoint {
 
 	for _, p := range a {
 		if p.Value != currMode {
-			currFreq = 1
+			// A new run starts; its first point takes part in the comparison below,
+			// so that values occurring once are ranked by their time as well.
+			currFreq = 0
 			currMode = p.Value
 			currTime = p.Time
-			continue
 		}
 		currFreq++
 		if mostFreq > currFreq || (mostFreq == currFreq && currTime > mostTime) {
@@ -725,10 +726,11 @@ func IntegerModeReduceSlice(a []IntegerPoint) []IntegerPoint {
 
 	for _, p := range a {
 		if p.Value != currMode {
-			currFreq = 1
+			// A new run starts; its first point takes part in the comparison below,
+			// so that values occurring once are ranked by their time as well.
+			currFreq = 0
 			currMode = p.Value
 			currTime = p.Time
-			continue
 		}
 		currFreq++
 		if mostFreq > currFreq || (mostFreq == currFreq && currTime > mostTime) {
@@ -766,10 +768,11 @@ func UnsignedModeReduceSlice(a []UnsignedPoint) []UnsignedPoint {
 
 	for _, p := range a {
 		if p.Value != currMode {
-			currFreq = 1
+			// A new run starts; its first point takes part in the comparison below,
+			// so that values occurring once are ranked by their time as well.
+			currFreq = 0
 			currMode = p.Value
 			currTime = p.Time
-			continue
 		}
 		currFreq++
 		if mostFreq > currFreq || (mostFreq == currFreq && currTime > mostTime) {
@@ -808,10 +811,11 @@ func StringModeReduceSlice(a []StringPoint) []StringPoint {
 
 	for _, p := range a {
 		if p.Value != currMode {
-			currFreq = 1
+			// A new run starts; its first point takes part in the comparison below,
+			// so that values occurring once are ranked by their time as well.
+			currFreq = 0
 			currMode = p.Value
 			currTime = p.Time
-			continue
 		}
 		currFreq++
 		if mostFreq > currFreq || (mostFreq == currFreq && currTime > mostTime) {
